@@ -40,6 +40,14 @@ pub fn run(args: &crate::Args) {
         }
         derived.push(format!("{k}{k}"));
         derived.push(format!("{k}.{k}"));
+        // letters replaced by characters that only *upper*-casing (or another folding than `to_lowercase`) maps onto
+        // them: long s, sharp s, dotless i, the ff ligature, the Kelvin sign, full-width letters — other suffixes
+        for (from, to) in [("s", "\u{17f}"), ("ss", "\u{df}"), ("i", "\u{131}"), ("ff", "\u{fb00}"), ("k", "\u{212a}"), ("c", "\u{ff43}"), ("j", "\u{ff2a}"), ("I", "\u{130}")] {
+            if k.contains(from) {
+                derived.push(k.replacen(from, to, 1));
+                derived.push(k.replace(from, to));
+            }
+        }
     }
     let mut cases: Vec<String> = Vec::new();
     for b in base.iter().map(|s| s.to_string()).chain(known.iter().cloned()).chain(derived.into_iter()) {
